@@ -6,13 +6,13 @@ PROPS = {
         lean=['XV.Props.C12'],
         level='proof',
         timeout={'quick': 600, 'thorough': 3000},
-        # concurrent State.DoTx / GetBalance on the REAL ledger + state machine at deterministic schedule points (go/cmd/chain, profile C12)
+        # concurrent State.DoTx / GetBalance / SelectUtxos / Walk / Play / PlayForMiner on the REAL ledger + state machine at deterministic schedule points (go/cmd/chain, profile C12)
         extra=[dict(engine='chain', driver='chain', stateful=True, timeout={'quick': 1500, 'thorough': 6000})],
         trusted_base=[KERNEL, HARNESS, "go/lockproto (go/ast fact extractor for doTxSync's lock skeleton, ~150 lines): trusted to read the statements of doTxSync correctly",
                       "modelled by hand and tied by correspondence (label-for-label, on every enumerated schedule of the real code): SpinLock.TryLock/Unlock/ExtractLockKeys and the lock/critical-section/unlock skeleton of doTxSync",
                       "Go's sync.Mutex / sync.Map and memory model: a region executed under SpinLock.mu is one atomic step (the harness probes the real mutex at every yield point, so removing it splits the step and is seen)"],
         assumptions=["the lock keys of a request are pairwise distinct (ExtractLockKeys de-duplicates; checked by the correspondence on every thread line)",
-                     "lock engine: the critical section is the harness's stand-in for doTxSync's check/apply/publish (a versioned key store); the REAL State.DoTx is driven at deterministic schedule points by the chain engine (second submission executed while the first is between applying and writing its batch; balance scan overlapping an admission) with the serialisable outcome computed by the Lean model (lockConflict of XV/Drv/Chain.lean)",
+                     "lock engine: the critical section is the harness's stand-in for doTxSync's check/apply/publish (a versioned key store); the REAL State.DoTx is driven at deterministic schedule points by the chain engine (second submission executed while the first is between applying and writing its batch; balance scan overlapping an admission; walkrace: a Walk / Play / PlayForMiner / DoTx started while another one is held at a yield point inside utxo.Mutex and seen waiting for the lock - outcome = one of the two one-at-a-time orders run by the real code on copies of the storage image, both orders answered by the Lean chain model) with the serialisable outcome computed by the Lean model (lockConflict of XV/Drv/Chain.lean)",
                      "preemption inside an atomic step, memory-model effects and wall-clock expiry of SelectUtxos locks are outside the model"],
     ),
 }
